@@ -25,7 +25,7 @@ def _fmt_kwargs(kind, kw):
     return kw
 
 
-def apply_table_ops(doc, table, ops, styles):
+def apply_table_ops(doc, table, ops, styles, customs=None):
     from numbers_parser import RGB, Border
 
     for op in ops:
@@ -36,6 +36,11 @@ def apply_table_ops(doc, table, ops, styles):
             _, r, c, vj, fkind, kw = op
             table.write(r, c, gens.from_json(vj))
             table.set_cell_formatting(r, c, fkind, **_fmt_kwargs(fkind, kw))
+        elif kind == "cfmt":
+            _, r, c, vj, name = op
+            table.write(r, c, gens.from_json(vj))
+            if customs and name in customs:
+                table.set_cell_formatting(r, c, "custom", format=customs[name])
         elif kind == "merge":
             table.merge_cells(op[1])
         elif kind == "style":
@@ -81,7 +86,15 @@ def build(recipe):
             kw["bg_color"] = RGB(*kw["bg_color"])
         if "alignment" in kw:
             kw["alignment"] = Alignment(*kw["alignment"])
+        if "bg_image" in kw:
+            from numbers_parser import BackgroundImage
+
+            name, hexdata = kw["bg_image"]
+            kw["bg_image"] = BackgroundImage(bytes.fromhex(hexdata), name)
         styles.append(doc.add_style(**kw))
+    customs = {}
+    for cf in recipe.get("custom_formats", []):
+        customs[cf["name"]] = doc.add_custom_format(**cf)
     for si, sheet in enumerate(recipe["sheets"]):
         if si > 0:
             ft = sheet["tables"][0]
@@ -94,7 +107,7 @@ def build(recipe):
                 table = sh.tables[0]
                 table.num_header_rows = t["hr"]
                 table.num_header_cols = t["hc"]
-            apply_table_ops(doc, sh.tables[ti], t["ops"], styles)
+            apply_table_ops(doc, sh.tables[ti], t["ops"], styles, customs)
     return doc
 
 
@@ -132,8 +145,15 @@ def number_format(draw):
 moderate_numbers = st.one_of(st.integers(-100000, 100000), gens.price(), st.sampled_from([0, 0.5, -0.125, 1234567.891, 999.995, -0.004]))
 
 
+CUSTOM_FORMATS = [
+    {"name": "VF num", "type": "number", "num_integers": 3, "num_decimals": 2, "show_thousands_separator": True},
+    {"name": "VF text", "type": "text", "format": "<%s>"},
+    {"name": "VF date", "type": "datetime", "format": "yyyy-MM-dd 'at' HH:mm"},
+]
+
+
 @st.composite
-def table_ops(draw, rows, cols, max_ops, nstyles, structural=True, merges=True, borders=True):
+def table_ops(draw, rows, cols, max_ops, nstyles, structural=True, merges=True, borders=True, customs=()):
     ops = []
     n = draw(st.integers(0, max_ops))
     merged = []  # rectangles already merged (r0, c0, r1, c1)
@@ -142,10 +162,10 @@ def table_ops(draw, rows, cols, max_ops, nstyles, structural=True, merges=True, 
         return any(a <= r <= c2 and b <= c <= d for a, b, c2, d in merged)
 
     for _ in range(n):
-        kind = draw(st.sampled_from(["write"] * 6 + ["wfmt"] * 4 + ["style", "border", "rowh", "colw", "merge", "struct", "caption"]))
+        kind = draw(st.sampled_from(["write"] * 6 + ["wfmt"] * 4 + ["style", "border", "rowh", "colw", "merge", "struct", "caption"] + (["cfmt"] if customs else [])))
         r = draw(st.integers(0, rows - 1))
         c = draw(st.integers(0, cols - 1))
-        if kind in ("write", "wfmt") and in_merge(r, c):
+        if kind in ("write", "wfmt", "cfmt") and in_merge(r, c):
             continue  # writing into a merged region is C12's business
         if kind == "write":
             ops.append(["write", r, c, gens.to_json(draw(gens.cell_values))])
@@ -166,6 +186,14 @@ def table_ops(draw, rows, cols, max_ops, nstyles, structural=True, merges=True, 
             else:
                 vals = ["Cat", "Dog", "Rabbit"]
                 ops.append(["wfmt", r, c, gens.to_json(draw(st.sampled_from(vals))), "popup", {"popup_values": vals, "allow_none": draw(st.booleans())}])
+        elif kind == "cfmt":
+            cf = draw(st.sampled_from(list(customs)))
+            v = {"number": draw(moderate_numbers) if cf["type"] == "number" else None}.get(cf["type"])
+            if cf["type"] == "text":
+                v = draw(st.sampled_from(["abc", "x y", ""]))
+            elif cf["type"] == "datetime":
+                v = draw(gens.datetimes_sec)
+            ops.append(["cfmt", r, c, gens.to_json(v), cf["name"]])
         elif kind == "style" and nstyles:
             ops.append(["style", r, c, draw(st.integers(0, nstyles - 1))])
         elif kind == "border" and borders and not merged:
@@ -223,7 +251,11 @@ def style_specs(draw, n):
         if draw(st.booleans()):
             s["font_color"] = draw(rgb)
         if draw(st.booleans()):
-            s["bg_color"] = draw(rgb)
+            if draw(st.integers(0, 3)) == 0:
+                data = bytes([137, 80, 78, 71, 13, 10, 26, 10]) + draw(st.binary(min_size=4, max_size=30))
+                s["bg_image"] = [f"docgen_img_{i}_{draw(st.integers(0, 10**6))}.png", data.hex()]
+            else:
+                s["bg_color"] = draw(rgb)
         if draw(st.booleans()):
             s["alignment"] = [draw(st.sampled_from(["left", "right", "center", "justified", "auto"])), draw(st.sampled_from(["top", "middle", "bottom"]))]
         out.append(s)
@@ -235,6 +267,7 @@ def recipes(draw, max_sheets=2, max_tables=2, max_ops=30, shapes=None, **opkw):
     shapes = shapes or [(3, 3), (4, 5), (6, 4), (12, 8), (2, 2), (8, 3)]
     nstyles = draw(st.integers(0, 3))
     styles = draw(style_specs(nstyles))
+    customs = draw(st.lists(st.sampled_from(CUSTOM_FORMATS), unique_by=lambda c: c["name"], max_size=3))
     sheets = []
     for si in range(draw(st.integers(1, max_sheets))):
         tables = []
@@ -243,6 +276,6 @@ def recipes(draw, max_sheets=2, max_tables=2, max_ops=30, shapes=None, **opkw):
             hr = draw(st.integers(0, min(2, rows - 1)))
             hc = draw(st.integers(0, min(2, cols - 1)))
             tables.append({"name": f"Table {ti + 1}" if draw(st.booleans()) else f"T{si}{ti}", "rows": rows, "cols": cols, "hr": hr, "hc": hc,
-                           "ops": draw(table_ops(rows, cols, max_ops, nstyles, **opkw))})
+                           "ops": draw(table_ops(rows, cols, max_ops, nstyles, customs=tuple(customs) if customs else (), **opkw))})
         sheets.append({"name": f"Sheet {si + 1}" if draw(st.booleans()) else f"S{si}", "tables": tables})
-    return {"styles": styles, "sheets": sheets}
+    return {"styles": styles, "custom_formats": customs, "sheets": sheets}
